@@ -115,7 +115,27 @@ def run_case(case, env, res, tmpdir, state):
     file_bytes = None
     path = None
     fmt = case.get("file_fmt", "PNG")
-    if source != "pil":
+    if case.get("frames"):
+        # an animated source, of which a one-off render shows the current frame -- whatever
+        # frames were current (and rendered) before
+        from ..common import make_anim_file
+
+        path = os.path.join(tmpdir, "c03-%d.%s" % (state["n"], fmt.lower()))
+        make_anim_file(rnd, path, case["src"][0], case["src"][1], case["frames"], fmt)
+        oracle_src = Image.open(path)
+        image = cls.from_file(path, width=W, height=H) if source == "file" else cls(Image.open(path), width=W, height=H)
+        if style == "iterm2":
+            image.read_from_file = False
+        for k in case["visits"][:-1]:
+            image.seek(k)
+            if case.get("render_visits", True):
+                format(image, "1.1#")
+            res.count("frames of animated sources visited before the judged render")
+        image.seek(case["visits"][-1])
+        oracle_src.seek(case["visits"][-1])
+        oracle_src.load()
+        source = "pil"  # (never read from file: judged by its pixels)
+    elif source != "pil":
         path = os.path.join(tmpdir, "c03-%d.%s" % (state["n"], fmt.lower()))
         save_im = pil
         if fmt in ("JPEG", "BMP") and pil.mode not in ("RGB", "L"):
@@ -403,6 +423,12 @@ def gen_random(rnd, persona):
             case["mode"] = rnd.choice(["RGB", "RGBA"])
         case["rff"] = rnd.choice([None, None, True, False])
     case["stylespec"] = "".join(sp)
+    if rnd.random() < 0.12:
+        n = rnd.randint(2, 5)
+        case.update(frames=n, visits=[rnd.randrange(n) for _ in range(rnd.randint(1, 4))], render_visits=rnd.random() < 0.7, file_fmt=rnd.choice(["GIF", "WEBP"]), source=rnd.choice(["pilfile", "file"]), mode="RGB", alpha=rnd.choice(["#", "", "#102030"]))
+        case["src"] = [min(case["src"][0], 60), min(case["src"][1], 60)]
+        case.pop("jpeg", None)
+        case.pop("smooth", None)
     return case
 
 
@@ -438,6 +464,15 @@ def gen_sweep(persona):
                             if style == "iterm2":
                                 c["rff"] = (j % 2 == 0)
                             yield c
+    j = 0
+    for style in ("kitty", "iterm2"):
+        for method in ("whole", "lines"):
+            for fmt in ("GIF", "WEBP"):
+                for source in ("pilfile", "file"):
+                    for visits in ([2, 0], [1, 2, 0], [3, 1], [0], [2], [1, 1]):
+                        for alpha in ("#", ""):
+                            j += 1
+                            yield dict(kind="still", style=style, cell=[4, 8], size=[3, 2], method=method, src=[12, 16], mode="RGB", alpha=alpha, source=source, file_fmt=fmt, frames=4, visits=visits, render_visits=j % 3 != 0, img_seed=7000 + j)
     for fmt in ("GIF", "WEBP", "PNG"):
         for source in ("file", "pilfile"):
             for frames in (2, 3):
